@@ -593,6 +593,31 @@ def run_c11(ctx, spec):
                     out["violations"].append(viol(pid, "decoded action is neither the no-op nor a member of the flat set",
                                                   vector=v, impl=ia, **where))
                     break
+            # the same structure with costs and probabilities that are NOT exactly representable in float32 (or as
+            # multiples of 1/64): positions and definitions are the model's, cost / probability equality is the
+            # implementation's own double arithmetic -- a decoded action IS the flat action, to the last bit
+            sdx = dict(sd, costs=(0.1, 0.3, 0.7, 1.2),
+                       exploits=[dict(e, cost=e["cost"] + 0.1, prob=min(1.0, max(0.001, float(e["prob"]) * 0.999 + 0.0003))) for e in sd["exploits"]],
+                       privescs=[dict(q, cost=q["cost"] + 0.3) for q in sd["privescs"]])
+            scx = scen.sd_to_scenario(sdx)
+            fsx, psx = FlatActionSpace(scx), ParameterisedActionSpace(scx)
+            pos = {json.dumps(a): j for j, a in reversed(list(enumerate(mflat)))}
+            for v, d in list(zip(vecs, dec))[:600]:
+                if not d or d[0][0] == 6:
+                    continue
+                j = pos.get(json.dumps(d[0]))
+                if j is None:
+                    continue
+                a_, b_ = psx.get_action(list(v)), fsx.get_action(j)
+                evals += 1
+                if not (a_ == b_ and a_.cost == b_.cost and a_.prob == b_.prob and type(a_) is type(b_)):
+                    out["violations"].append(viol(pid, "a vector of the parameterised space decodes to an action that is not "
+                                                       "the member of the flat set at its position (costs / probabilities "
+                                                       "that are not exactly representable in single precision)",
+                                                  vector=v, decoded=[str(a_), repr(float(a_.cost)), repr(float(a_.prob))],
+                                                  flat_member=[str(b_), repr(float(b_.cost)), repr(float(b_.prob))],
+                                                  scenario=sdx))
+                    break
             # the mask in the states of several independent walks (other routes, equal numbers of discovered
             # hosts), visited in random order on ONE environment: it is a function of the current state alone
             runner, states = walk_states(rng, scenario, sd, nsteps)
